@@ -668,8 +668,10 @@ def short_loc(detail):
     m = re.match(r'(\S+?):(\d+):\s*(.*)', detail)
     if not m:
         return detail[:60]
-    path = m.group(1).replace("/repo/", "")
-    if path.startswith("/"):
+    path = m.group(1)
+    if "/src/" in path and "/.cargo/" not in path and "/rustc/" not in path:
+        path = "src/" + path.split("/src/", 1)[1]        # the interpreter's own sources, wherever the tree is checked out
+    elif path.startswith("/"):
         path = "/".join(path.split("/")[-2:])
     return f"{path}:{m.group(2)}"
 
